@@ -31,6 +31,7 @@ type Inserter struct {
 	asyncBlocks []asyncBlock
 	rowsCount   uint32
 	wg          sync.WaitGroup
+	mutex       sync.Mutex
 	errChan     chan error
 	blocks      <-chan *sorter.Block
 	numWorkers  int
@@ -84,7 +85,6 @@ func (i *Inserter) insertBlock() {
 			i.errChan <- err
 			return
 		}
-		i.rowsCount += uint32(blk.RowsCount)
 
 		// write block index and add pk sums to table index
 		idx, err := objects.IndexBlockFromBytes(dec, hash, e, blk.Block, i.tbl.PK)
@@ -100,12 +100,15 @@ func (i *Inserter) insertBlock() {
 			return
 		}
 		i.logger.Info("index block", "blockSum", sum, "indexSum", blkIdxSum)
+		i.mutex.Lock()
+		i.rowsCount += uint32(blk.RowsCount)
 		i.asyncBlocks = append(i.asyncBlocks, asyncBlock{
 			Offset: blk.Offset,
 			Sum:    sum,
 			IdxSum: blkIdxSum,
 			PK:     blk.PK,
 		})
+		i.mutex.Unlock()
 		if i.pt != nil {
 			i.pt.Incr()
 		}
